@@ -111,9 +111,17 @@ type verifStream struct {
 	err  error
 	// chunk > 0: one Read returns at most chunk bytes (a body that arrives in several TCP segments)
 	chunk int
+	// yieldBetweenReads: the goroutine can be descheduled while it waits for the next segment
+	yieldBetweenReads bool
+	// chunkUntil > 0: chunking (and yielding) only applies to the first chunkUntil bytes
+	chunkUntil int
 }
 
 func (s *verifStream) Read(p []byte) (int, error) {
+	chunked := s.chunkUntil == 0 || s.pos < s.chunkUntil
+	if s.yieldBetweenReads && s.pos > 0 && chunked {
+		verifrt.Yield()
+	}
 	if s.pos >= len(s.data) {
 		if s.err != nil {
 			return 0, s.err
@@ -121,7 +129,7 @@ func (s *verifStream) Read(p []byte) (int, error) {
 		return 0, errEOFVerif
 	}
 	avail := s.data[s.pos:]
-	if s.chunk > 0 && len(avail) > s.chunk {
+	if s.chunk > 0 && chunked && len(avail) > s.chunk {
 		avail = avail[:s.chunk]
 	}
 	n := copy(p, avail)
@@ -232,4 +240,68 @@ func verifClient(n *NSQD, id int64, wire []byte) (*clientV2, *verifConn) {
 
 func verifBE32(v uint32) []byte {
 	return []byte{byte(v >> 24), byte(v >> 16), byte(v >> 8), byte(v)}
+}
+
+// verifFeedBackend: a FIFO disk-queue stand-in whose ReadChan really delivers - a feeder goroutine
+// offers the oldest record, like go-diskqueue's ioLoop; Depth counts a record until it has been
+// taken; Empty drops everything, also the record on offer.
+type verifFeedBackend struct {
+	verifBackend
+	kick, reset, stop chan struct{}
+	out               chan []byte
+}
+
+func newVerifFeedBackend() *verifFeedBackend {
+	b := &verifFeedBackend{kick: make(chan struct{}, 1), reset: make(chan struct{}, 1), stop: make(chan struct{}), out: make(chan []byte)}
+	go b.feed()
+	return b
+}
+
+func (b *verifFeedBackend) feed() {
+	for {
+		if len(b.items) == 0 {
+			select {
+			case <-b.kick:
+			case <-b.reset:
+			case <-b.stop:
+				return
+			}
+			continue
+		}
+		select {
+		case b.out <- b.items[0]:
+			b.items = b.items[1:]
+		case <-b.reset:
+		case <-b.stop:
+			return
+		}
+	}
+}
+
+func (b *verifFeedBackend) Put(p []byte) error {
+	err := b.verifBackend.Put(p)
+	if err == nil {
+		select {
+		case b.kick <- struct{}{}:
+		default:
+		}
+	}
+	return err
+}
+func (b *verifFeedBackend) ReadChan() <-chan []byte { return b.out }
+func (b *verifFeedBackend) Empty() error {
+	err := b.verifBackend.Empty()
+	select {
+	case b.reset <- struct{}{}:
+	default:
+	}
+	return err
+}
+func (b *verifFeedBackend) Close() error {
+	select {
+	case <-b.stop:
+	default:
+		close(b.stop)
+	}
+	return b.verifBackend.Close()
 }
